@@ -98,6 +98,20 @@ Definition decide (c : cfg) (d : direction) (t : transport) (size : Z) : outcome
   | S2C, _ => accepted (-1) size     (* polling client: no limit on a response body *)
   end.
 
+(** * A session: messages one after the other on one transport
+
+    The receiver handles messages in order; the first one it refuses closes the transport and
+    nothing after it is delivered.  Result: sizes delivered to OnPacket, and whether the transport
+    was closed by the receiver. *)
+Fixpoint session (c : cfg) (d : direction) (t : transport) (sizes : list Z) : list Z * bool :=
+  match sizes with
+  | [] => ([], false)
+  | s :: rest =>
+      if o_accept (decide c d t s)
+      then let '(dl, cl) := session c d t rest in (s :: dl, cl)
+      else ([], true)
+  end.
+
 (** * The library readers, read by read *)
 
 Inductive read_result :=
